@@ -1,7 +1,7 @@
 """Engine B kernels for the child-limit arithmetic (C16)."""
 import os
 from . import mir as M
-from .mir import T, I, Rec, Ref, Unsupported
+from .mir import T, I, Rec, Ref, Opaque, Unsupported
 from .kernels import run_kernel, struct_fields, REPO
 from .pillars import _ctx, _finish
 
@@ -160,4 +160,112 @@ def k_addition(eng):
 
     r = run_kernel(eng, "16.c/B/addition", "16.c", "birth clock/day any, additions up to 12 y, 11 m, 30 d, 23 h, 59 min, 59 s; month lengths any 21..31; month-carry loop unrolled 5 times with the bound proved",
                    build, None, replay)
+    return _finish(r, holder["ctx"]) if "ctx" in holder else r
+
+
+def k_direction(eng):
+    """ChildLimit::from_solar_time: luck runs forward exactly for Yang-year men and Yin-year women; the Jie handed to the limit strategy is the
+    next Jie after the birth instant if forward, the latest Jie at or before it if backward.  The instant's term is given by its number
+    (C06's instant mapping); a term of the birth DAY (which can be one ahead of the instant's) is modelled as such, so using it is visible."""
+    from .objmodel import Obj
+    holder = {}
+
+    class Trm:
+        def __init__(self, t):
+            self.t = t          # SMT Int term: term number (odd = Jie)
+
+    def build(eng):
+        fn = None
+        for name, fl in eng.fns.items():
+            for f in fl:
+                if name.endswith("::from_solar_time") and f.ret == "ChildLimit":
+                    fn = f
+        if fn is None:
+            raise Unsupported("ChildLimit::from_solar_time not found")
+        ctx = _ctx(eng, {})
+        birth = Rec(ctx, "birth", "SolarTime")
+        man = ctx.fresh_value("gender_is_man", "bool")
+        yp = ctx.fresh_value("year_pillar", "usize")
+        ti = ctx.fresh_value("term_number_of_the_instant", "isize")
+        ahead = ctx.fresh_value("day_term_is_one_ahead", "bool")
+        holder.update(ctx=ctx)
+        model = ctx.model
+        base = model.call
+        day_rec = Rec(ctx, "birth_day", "SolarDay")
+
+        class YY:
+            def __init__(self, stem):
+                self.stem = stem
+
+        def call(c, fr, callee, args, path):
+            a = [model.deref(c, x) for x in args]
+            if callee == "EightChar::get_year":
+                return True, Obj("SixtyCycle", yp)
+            if callee == "HeavenStem::get_yin_yang" and isinstance(a[0], Obj):
+                return True, YY(a[0].idx)
+            if callee == "<YinYang as PartialEq>::eq":
+                yy = [x for x in a if isinstance(x, YY)]
+                op = [x for x in a if isinstance(x, Opaque)]
+                if len(yy) == 1 and len(op) == 1 and "YANG" in op[0].name:
+                    return True, T("(= (mod %s 2) 0)" % yy[0].stem.s, "Bool")      # 19.a: even stems are Yang
+                if len(yy) == 1 and len(op) == 1 and "YIN" in op[0].name:
+                    return True, T("(= (mod %s 2) 1)" % yy[0].stem.s, "Bool")
+            if callee == "<Gender as PartialEq>::eq":
+                op = [x for x in a if isinstance(x, Opaque) and "Gender::" in x.name]
+                if len(op) == 1 and op[0].name.endswith("Gender::MAN"):
+                    return True, man
+                if len(op) == 1 and op[0].name.endswith("Gender::WOMAN"):
+                    return True, T("(not %s)" % man.s, "Bool")
+            if callee == "SolarTime::get_term" and a[0] is birth:
+                return True, Trm(ti)
+            if callee == "SolarTime::get_solar_day" and a[0] is birth:
+                return True, day_rec
+            if callee == "SolarDay::get_term" and a[0] is day_rec:
+                return True, Trm(T("(ite %s (+ %s 1) %s)" % (ahead.s, ti.s, ti.s), "Int"))
+            if a and isinstance(a[0], Trm):
+                if callee == "SolarTerm::is_jie":
+                    return True, T("(= (mod %s 2) 1)" % a[0].t.s, "Bool")
+                if callee == "SolarTerm::is_qi":
+                    return True, T("(= (mod %s 2) 0)" % a[0].t.s, "Bool")
+                if callee == "<SolarTerm as Tyme>::next" and isinstance(a[1], T):
+                    return True, Trm(T("(+ %s %s)" % (a[0].t.s, a[1].s), "Int"))
+                if callee.endswith("::clone"):
+                    return True, a[0]
+            return base(c, fr, callee, args, path)
+        model.call = call
+        gender = Opaque("gender-value")
+        # the gender argument is compared through <Gender as PartialEq>::eq(const Gender::MAN, gender): the model keys on the constant
+        paths = ctx.run(fn, [birth, gender])
+        pre = ["(<= 0 %s 59)" % yp.s, "(<= 24 %s 239976)" % ti.s]
+
+        def shape(p):
+            gi = [c for c in p.calls if c[0].endswith("ChildLimitProvider>::get_info") or c[0].endswith("::get_info")]
+            if len(gi) != 1:
+                return "expected exactly one get_info call"
+            if gi[0][1][1] is not birth:
+                return "the limit is not computed from the birth instant"
+            if not isinstance(model.deref(ctx, gi[0][1][2]), Trm):
+                return "the term handed to the strategy is not derived from the birth's term"
+            if not (isinstance(p.ret, Rec) and hasattr(p.ret, "named") and "forward" in p.ret.named):
+                return "result is not a ChildLimit aggregate"
+            return None
+
+        def posts(p):
+            gi = [c for c in p.calls if c[0].endswith("::get_info")][0]
+            term = model.deref(ctx, gi[1][2]).t.s
+            fwd = p.ret.named["forward"]
+            yang = "(= (mod (mod %s 10) 2) 0)" % yp.s
+            exp_fwd = "(= %s %s)" % (yang, man.s)
+            prev_jie = "(ite (= (mod %s 2) 1) %s (- %s 1))" % (ti.s, ti.s, ti.s)
+            return [("forward-for-yang-men-and-yin-women", "(= %s %s)" % (fwd.s, exp_fwd)),
+                    ("governing-jie", "(= %s (ite %s (+ %s 2) %s))" % (term, exp_fwd, prev_jie, prev_jie))]
+        return ctx, paths, pre, posts, shape
+
+    def replay(eng, model):
+        nat = eng.native("child_dir_scan")
+        if nat in ("NONE", "PANIC", "UNKNOWN", ""):
+            return nat == "PANIC", "native scan: " + (nat or "no output")
+        return True, "direction / governing Jie rule violated: " + nat
+
+    r = run_kernel(eng, "16.d/B/direction", "16.d", "all 60 year pillars x both genders x every term position of the birth instant", build, None, replay)
     return _finish(r, holder["ctx"]) if "ctx" in holder else r
